@@ -1,0 +1,18 @@
+//go:build verif
+
+package ha
+
+// Verification hooks for property C09. Wrappers only (-tags verif).
+
+// VerifC09ConnectToStream runs the standby's SSE reader once against the configured partner endpoint.
+func (s *HASyncer) VerifC09ConnectToStream() error { return s.connectToStream() }
+
+// VerifC09HandleSSEData hands one SSE data payload to the sync-message handler.
+func (s *HASyncer) VerifC09HandleSSEData(data []byte) error { return s.handleSSEData(data) }
+
+// VerifC09MessagesReceived returns the number of sync messages decoded so far.
+func (s *HASyncer) VerifC09MessagesReceived() uint64 {
+	s.mu.RLock()
+	defer s.mu.RUnlock()
+	return s.stats.MessagesReceived
+}
